@@ -306,6 +306,8 @@ func (r condition) unmarshalDefault() (slice []any, err error) {
 	var nexpr any
 	if s, ok := stackTypeAliasConverter(r.ex); ok {
 		nexpr, err = s.Unmarshal() // unmarshaled stack/stack-alias
+	} else if c, ok := conditionTypeAliasConverter(r.ex); ok {
+		nexpr, err = c.Unmarshal() // unmarshaled condition/condition-alias
 	} else {
 		nexpr = r.ex // orig
 	}
